@@ -1,3 +1,3 @@
 """Sidecar contracts for the real functions of /repo/src/rp2 (nothing in /repo is edited).
 Importing this package registers every contract, invariant, lemma and assumed external contract."""
-from . import common, externals, decimal_ops, country, transactions, gain_loss, entry_set, computed_data, balance, matcher      # noqa: F401
+from . import common, externals, decimal_ops, country, transactions, gain_loss, entry_set, computed_data, balance, matcher, engine      # noqa: F401
